@@ -41,7 +41,7 @@ LENIENT = [0, 1, 2, 3]     # indices of the flags whose switching ON is a lenien
 def required_cells(tier):
     cells = ['law:reflexive', 'law:exact', 'law:monotone:ELLIPSIS', 'law:monotone:NORMALIZE_WHITESPACE',
              'law:monotone:IGNORE_WHITESPACE', 'law:monotone:NORMALIZE_REPR', 'law:monotone:ACCEPT_BLANKLINE',
-             'law:nonblank', 'ref:match', 'ref:nomatch', 'e2e:match', 'e2e:nomatch']
+             'law:nonblank', 'ref:match', 'ref:nomatch', 'e2e:match', 'e2e:nomatch', 'ellipsis-structured']
     cells += ['ref:flags:%s' % ''.join(map(str, b)) for b in ALLBITS]
     return cells
 
@@ -362,6 +362,19 @@ def run_shard(ctx):
             ctx.evaluation()
             if got != want and want:
                 ctx.nontrivial(('p', got, want))
+    # wants with two and three wildcards (one token each) against all short gots: the ellipsis relation under
+    # every flag set, not only in isolation (C06 judges the matcher alone)
+    EW = [w for w in (''.join(t) for k in range(2, 6) for t in itertools.product(['a', 'b', ' ', '...'], repeat=k))
+          if w.count('...') >= 2 and w.strip() and w.replace('...', '').strip()]
+    EG = [''.join(t) for k in range(1, 5) for t in itertools.product(['a', 'b', ' '], repeat=k)]
+    ctx.notes['ellipsis_structured'] = {'wants': len(EW), 'gots': len(EG)}
+    for wi in ctx.my_indices(len(EW)):
+        want = EW[wi]
+        for got in EG:
+            judge.pair(got, want)
+            ctx.evaluation()
+        ctx.nontrivial_count(len(EG))
+        ctx.cell('ellipsis-structured')
     # random longer pairs derived by rewriting
     n_rand = ctx.pick(24000, 600000)
     for idx in ctx.my_indices(n_rand):
